@@ -1133,9 +1133,12 @@ func (s *Server) publishToClient(cl *Client, sub packets.Subscription, pk packet
 		out.PacketID = uint16(i) // [MQTT-2.2.1-4]
 		sentQuota := atomic.LoadInt32(&cl.State.Inflight.sendQuota)
 
-		if ok := cl.State.Inflight.Set(out); ok { // [MQTT-4.3.2-3] [MQTT-4.3.3-3]
+		stored := out // the stored copy outlives this connection and its topic aliases [MQTT-3.3.2-7]
+		stored.TopicName = pk.TopicName
+		stored.Properties.TopicAlias, stored.Properties.TopicAliasFlag = 0, false
+		if ok := cl.State.Inflight.Set(stored); ok { // [MQTT-4.3.2-3] [MQTT-4.3.3-3]
 			atomic.AddInt64(&s.Info.Inflight, 1)
-			s.hooks.OnQosPublish(cl, out, out.Created, 0)
+			s.hooks.OnQosPublish(cl, stored, stored.Created, 0)
 			cl.State.Inflight.DecreaseSendQuota()
 		}
 
@@ -1145,7 +1148,8 @@ func (s *Server) publishToClient(cl *Client, sub packets.Subscription, pk packet
 			} else {
 				out.Expiry = -1
 			}
-			cl.State.Inflight.Set(out)
+			stored.Expiry = out.Expiry
+			cl.State.Inflight.Set(stored)
 			return out, nil
 		}
 	}
